@@ -238,9 +238,11 @@ class Core : public ResultCoreT<Type, Ret, E>, public FuncCore<Func> {
         return CallResolveAsync<SymmetricTransfer>(std::forward<Result>(r).Value());
       } else if (state == ResultState::Exception) {
         return Done<SymmetricTransfer>(std::forward<Result>(r).Exception());
-      } else {
-        YACLIB_ASSERT(state == ResultState::Error);
+      } else if (state == ResultState::Error) {
         return Done<SymmetricTransfer>(std::forward<Result>(r).Error());
+      } else {
+        YACLIB_ASSERT(state == ResultState::Empty);
+        return Done<SymmetricTransfer>(yaclib::Result<Ret, E>{});
       }
     } else {
       /**
